@@ -218,8 +218,11 @@ Record tables := {
   arith_ops : list string; cmp_ops : list string; redscan_ops : list string;
   t_bin : list (string * string); t_cmp : list (string * string);
   t_red : list (string * string); t_scan : list (string * string);
+  t_call : list (string * string);      (* binary verbs emitted as a call of a helper: {'%': '_div', '^': '_pow'} *)
+  helpers_bound : bool; (* the exec namespace binds _div to compiled_divide and _pow to eval_dyad_power *)
   adm_obj : bool;       (* does _ast_to_ir admit object-dtype arrays? *)
-  f_bin : list tpart; f_cmp : list tpart; f_neg : list tpart; f_red : list tpart; f_scan : list tpart
+  f_bin : list tpart; f_cmp : list tpart; f_neg : list tpart; f_red : list tpart; f_scan : list tpart;
+  f_call : list tpart
 }.
 
 Definition mem (s : string) (l : list string) : bool := existsb (String.eqb s) l.
@@ -310,9 +313,13 @@ Fixpoint ir_to_source (T : tables) (i : ir) : option string :=
   | IBin op l r =>
       match ir_to_source T l, ir_to_source T r with
       | Some ls, Some rs =>
-          match assoc op (t_bin T) with
-          | Some o => Some (fill (f_bin T) [("l", ls); ("py_op", o); ("r", rs)])
-          | None => None
+          match assoc op (t_call T) with
+          | Some c => Some (fill (f_call T) [("call", c); ("l", ls); ("r", rs)])
+          | None =>
+              match assoc op (t_bin T) with
+              | Some o => Some (fill (f_bin T) [("l", ls); ("py_op", o); ("r", rs)])
+              | None => None
+              end
           end
       | _, _ => None
       end
@@ -441,7 +448,10 @@ Fixpoint eval_ir (T : tables) (args : string -> option val) (i : ir) : res val :
   | IVar n => match args n with Some v => Ok v | None => Err (* NameError *) end
   | IBin op l r =>
       bind (eval_ir T args l) (fun a => bind (eval_ir T args r) (fun b =>
-        match assoc op (t_bin T) with Some o => py_binop o a b | None => Unm end))
+        match assoc op (t_call T) with
+        | Some c => if helpers_bound T then py_helper c a b else Unm
+        | None => match assoc op (t_bin T) with Some o => py_binop o a b | None => Unm end
+        end))
   | ICmp op l r =>
       bind (eval_ir T args l) (fun a => bind (eval_ir T args r) (fun b =>
         match assoc op (t_cmp T) with Some o => py_cmp o a b | None => Unm end))
